@@ -1822,7 +1822,7 @@ def ak_reference_strategy(tier: str):
         quirk = draw(I(0, 23))
         allow_imp = True
         non_ascii = quirk == 22
-        kwcase = quirk == 23
+        kwcase = quirk in (20, 21, 23)
         lines = some(draw, lambda d: ak_line(d, q, allow_imp, non_ascii,
                                              kwcase), 1, max_lines)
         # the same file asked on behalf of related clients
@@ -1873,5 +1873,5 @@ FAMILIES = [
                              'comma-in-quotes', 'space-in-quotes',
                              'escaped-quote', 'repeated-option',
                              'later-line-wins', 'ca-query', 'user-query',
-                             'damaged']}),
+                             'damaged', 'keyword-case']}),
 ]
